@@ -102,8 +102,8 @@ func (e *Exec) addModel(m map[string]uint64) {
 	}
 	pm := &poolModel{m: m, memo: map[int]uint64{}, upTo: len(e.pc)}
 	e.models = append(e.models, pm)
-	if len(e.models) > 40 {
-		e.models = e.models[len(e.models)-40:]
+	if len(e.models) > 16 {
+		e.models = e.models[len(e.models)-16:]
 	}
 	if e.shared != nil {
 		e.shared.models = e.models
@@ -205,6 +205,9 @@ func (e *Exec) modelSays(cond *Term) (canTrue, canFalse bool) {
 			// pc was truncated (summaries); re-validate from scratch
 			pm.upTo = 0
 		}
+		if len(pm.memo) > 150000 {
+			pm.memo = map[int]uint64{}
+		}
 		ok := true
 		for pm.upTo < len(e.pc) {
 			if Eval(e.pc[pm.upTo], pm.m, pm.memo) != 1 {
@@ -251,13 +254,11 @@ func (e *Exec) fresh(name string, w int) *Term {
 }
 
 func (e *Exec) sat(extra ...*Term) (Result, map[string]uint64) {
-	conj := append(append([]*Term{}, e.pc...), extra...)
-	return e.sol.Check(conj, true)
+	return e.sol.CheckInc(e.pc, extra, true)
 }
 
 func (e *Exec) satNoModel(extra ...*Term) Result {
-	conj := append(append([]*Term{}, e.pc...), extra...)
-	r, _ := e.sol.Check(conj, false)
+	r, _ := e.sol.CheckInc(e.pc, extra, false)
 	return r
 }
 
